@@ -1083,6 +1083,8 @@ class Exec:
                 return self.cast("IntToInt", T, U, self.deref_value(st, args[0]))
             if T in INT_BITS and U == "f64":
                 return self.cast("IntToFloat", T, U, self.deref_value(st, args[0]))
+        if base == "<core::option::Option<T> as core::default::Default>::default" and not args:
+            return mk("agg", ("adt", "core::option::Option", 0, "None"), ())
         if base == "<f64 as core::default::Default>::default":
             return f64c(0.0)
         if base == "core::f64::<impl f64>::recip":
